@@ -15,12 +15,13 @@ import (
 func init() { props["C12"] = runC12 }
 
 func runC12(run *Run, replay string) {
-	run.Res.Rule = "generated schema x configuration (valid, injected, typing-history states) x cursor offsets (token boundaries and a sample; all offsets in thorough); HoverAtPos: at body level (attribute names, block types, labels, positional errors) the model must predict the same range and - for block types and labels, incl. dependent bodies resolved in one or two steps - the same content; everywhere: a hover has non-empty content and a range containing the cursor; distinct non-trivial = distinct (file text, offset) with a hover"
+	run.Res.Rule = "generated schema x configuration (valid, injected, typing-history states) x cursor offsets (token boundaries and a sample; all offsets in thorough); HoverAtPos: at body level (attribute names, block types, labels, positional errors) the model must predict the same range and - for block types and labels, incl. dependent bodies resolved in one or two steps - the same content; everywhere: a hover has non-empty content and a range containing the cursor; inside object values (literal, quoted, interpolated, traversal, numeric and parenthesised keys in any order, under object / list-of-object / one-of constraints) the hover of an item never shows another attribute's description and always names the element; distinct non-trivial = distinct (file text, offset) with a hover"
 	bases, hist, posN := 60, 4, 40
 	if run.Thorough {
 		bases, hist, posN = 600, 20, 100000
 	}
 	ctx := context.Background()
+	objectHoverOracle(run, bases*3)
 	for bi := 0; bi < bases; bi++ {
 		r := rand.New(rand.NewSource(subSeed(run.Res.Seed, bi)))
 		opts := ScenarioOpts{Histories: hist, Inject: bi%3 == 1, Gen: GenOpts{Degenerate: bi%7 == 6}}
